@@ -22,10 +22,11 @@ def sh(cmd, **kw):
 
 def main():
     prop, which = sys.argv[1].upper(), sys.argv[2].upper()
-    src = '/tmp/seed-%s-out' % prop
+    rnd = sys.argv[3] if len(sys.argv) > 3 else 'seed'
+    src = '/tmp/%s-%s-out' % (rnd, prop)
     diff = os.path.join(src, '%s.diff' % which)
     demo = os.path.join(src, 'demo_%s.py' % which)
-    wt = '/tmp/ingest-%s-%s' % (prop, which)
+    wt = '/tmp/ingest-%s-%s-%s' % (rnd, prop, which)
     sh(['git', '-C', '/repo', 'worktree', 'remove', '--force', wt])
     sh(['git', '-C', '/repo', 'worktree', 'add', '--detach', '-f', wt, 'HEAD'])
     res = {}
@@ -53,7 +54,7 @@ def main():
     print('CONFIRMED' if ok else 'NOT CONFIRMED')
     if not ok:
         return 1
-    dst = os.path.join(VERIF, 'seeded', '%s-%s' % (prop, which))
+    dst = os.path.join(VERIF, 'seeded', '%s-%s%s' % (prop, '' if rnd == 'seed' else 'r2', which))
     os.makedirs(dst, exist_ok=True)
     shutil.copy(diff, os.path.join(dst, 'patch.diff'))
     shutil.copy(demo, os.path.join(dst, 'demo.py'))
